@@ -1455,10 +1455,6 @@ class StorageBackendBase(StorageBackend, ABC):
         if self.read_only:
             return
 
-        if self._memory_cache:
-            # Write through to memory cache
-            self._memory_cache.put(memento, result, has_result=True)
-
         # Write data
         result_type = memento.invocation_metadata.result_type
         content_key = self.codec.store(
@@ -1470,6 +1466,12 @@ class StorageBackendBase(StorageBackend, ABC):
 
         # Write metadata
         self._metadata_source.put_memento(memento)
+
+        if self._memory_cache:
+            # Write through to memory cache, once the memento says where the data is: a
+            # memento cached earlier could be handed to another thread, which would fail to
+            # read the result from the store if the entry was evicted in the meantime.
+            self._memory_cache.put(memento, result, has_result=True)
 
     def read_metadata(
         self,
